@@ -41,7 +41,7 @@ wait
   echo "# Seeded changes against the quick checks"
   echo
   echo "Written by tools/seed_regression_par.sh ($(date -u +%FT%TZ), /repo $(git -C /repo rev-parse --short HEAD), /verif $(git -C /verif rev-parse --short HEAD))."
-  echo "exit 1 = the check reported the change; exit 0 = missed; see DESIGN.md section 13 for the seeds that are not expected to be reported (C10b, C15g: outside the stated domain; C02d: neutralised by fix 446db43; C12e: reported by C15)."
+  echo "exit 1 = the check reported the change; exit 0 = not reported; exit 2 = the harness stopped with a machinery error instead of a verdict.  Not expected to be reported (DESIGN.md section 13): C10b, C15g, C09k (outside the stated domain); C02d (neutralised by fix 446db43); C04h, C12e, C12h, C14i, C14j (async port only: reported by C15); C16h (sequential defect: reported by C04/C14)."
   echo
   echo "| seed | check | exit | seconds | first signatures |"
   echo "|---|---|---|---|---|"
